@@ -93,3 +93,8 @@ register("C19", ["c19", "c08"],
          "Freedom from lost wake-ups and double hand-over under all interleavings is a concurrent-protocol property that needs a model checker and is NOT decided. Decided structural mechanisms: a request is taken for a peer only after the completed wait for that peer's announced state to contain the lowest pending number, and exactly that number is removed, atomically inside one watch closure, from the state pushed on that very connection; the acceptor returns only an entry it removed itself; the requester's retry table (done -> return, completion dropped -> re-insert, cancelled -> remove) is enumerated; completion is signalled only after the fetched block was queued (number-checked and verified, C08); the fetcher bounds each request by queued/persisted.",
          ["tokio watch/oneshot semantics", "the peer's push_block_store_state handler stores what the peer announced"],
          TRUSTED)
+
+register("C06", ["c06", "c16"],
+         "Progress (a liveness statement over fair suffixes of all schedules) is NOT decided by static analysis. This check decides the presence and wiring of the mechanisms the property's anchors name, as necessary conditions: the replica loop turns an expired receive deadline into a timeout and keeps looping; on every successful path and in every phase the timeout starter re-arms the timer and re-sends ReplicaTimeout and (for view != 0) ReplicaNewView - the retransmission that un-sticks lagging replicas; view 0 bootstraps with a timeout; new-view/commit/timeout handlers start newer views; the view starter publishes the justification to the proposer, broadcasts new-view and resets the deadline; the proposer proposes iff it leads the justified view, bounded by the view timeout; the input queue keeps the freshest vote (C16).",
+         ["timeouts keep firing and messages are eventually delivered (the property's own premises)"],
+         TRUSTED)
